@@ -216,13 +216,19 @@ def judge_order(subset, positions, tally):
             not ref.feasible_set(ORDER_INST, False, False):
         raise lprun.HarnessError("C16 order instances: feasibility assumption wrong")
     assign = dict(zip(subset, positions))
-    for inst, feasible in ((ORDER_INST, True), (INFEAS_INST, False)):
+    from . import c14
+    modes = [(ORDER_INST, True, None), (INFEAS_INST, False, None),
+             # a feasible instance whose FIRST underlying solve is left unsolved /
+             # ends with an unknown status once (then the back end works again)
+             (ORDER_INST, False, "NotSolved"), (ORDER_INST, False, "Undefined")]
+    for inst, feasible, fault in modes:
       text = I.render(inst)
       for order in (list(subset), list(reversed(subset))):
         tail = ["-na", "3", "-twopl"]
         for c in order:
             tail += ["-" + c, str(assign[c])]
-        obs = lprun.run_solver(text, tail, Env([]), getters=("short", "long"))
+        plan = c14.Plan([(0, fault, False, "zero")]) if fault else None
+        obs = lprun.run_solver(text, tail, Env([]), getters=("short", "long"), fault_fn=plan)
         tally.inc("evaluations")
         tally.inc("nontrivial")
         tally.inc("order_runs")
@@ -243,9 +249,11 @@ def judge_order(subset, positions, tally):
                 fp = "order:lines-not-in-position-order" if feasible else \
                     "order:criteria-reported-after-first-non-optimal-solve"
                 tally.violation({"argv": tail, "file": text, "fingerprint": fp,
-                                 "what": "%s result lists %r, expected %r for %r (%s instance)" % (
+                                 "what": "%s result lists %r, expected %r for %r (%s)" % (
                                      which, lines, want, tail,
-                                     "feasible" if feasible else "infeasible")})
+                                     "feasible instance" if feasible else
+                                     ("first solve ends %s" % fault if fault else
+                                      "instance without feasible matching"))})
                 break
 
 
